@@ -3,6 +3,7 @@
 package drivers
 
 import (
+	"crypto/sha256"
 	"crypto/x509"
 	"fmt"
 	"io"
@@ -21,6 +22,7 @@ import (
 	"github.com/gr33nbl00d/caddy-revocation-validator/core"
 	"github.com/gr33nbl00d/caddy-revocation-validator/crl"
 	"github.com/gr33nbl00d/caddy-revocation-validator/crl/crlrepository"
+	"github.com/gr33nbl00d/caddy-revocation-validator/crl/crlstore"
 	"github.com/gr33nbl00d/caddy-revocation-validator/ocsp"
 
 	"verif/h/rt/vsched"
@@ -222,3 +224,68 @@ func bi(n int64) *big.Int { return big.NewInt(n) }
 var _ = vsched.Epoch
 
 type x509Cert = x509.Certificate
+
+// storeDigest summarises the content of a live CRL store (all keys and
+// values) for canonical state keys: left-over entries are state.
+func storeDigest(s crlstore.CRLStore) string {
+	if s == nil {
+		return "nil"
+	}
+	if fs, ok := s.(*faultStore); ok {
+		s = fs.CRLStore
+	}
+	h := sha256.New()
+	n := 0
+	switch st := s.(type) {
+	case *crlstore.MapStore:
+		var keys []string
+		for k := range st.Map {
+			keys = append(keys, k)
+		}
+		sort.Strings(keys)
+		for _, k := range keys {
+			h.Write([]byte(k))
+			h.Write(st.Map[k])
+			n++
+		}
+	case *crlstore.LevelDbStore:
+		if st.Db == nil {
+			return "nodb"
+		}
+		it := st.Db.NewIterator(nil, nil)
+		for it.Next() {
+			h.Write(it.Key())
+			h.Write(it.Value())
+			n++
+		}
+		it.Release()
+		if it.Error() != nil {
+			return "closed"
+		}
+	default:
+		return fmt.Sprintf("%T", s)
+	}
+	return fmt.Sprintf("%d:%x", n, h.Sum(nil)[:4])
+}
+
+// dirDigest is a physical digest of a work dir (relative names and sizes,
+// LevelDB LOG/LOCK files excluded): data left on disk is state even when no
+// repository entry refers to it yet.
+func dirDigest(dir string) string {
+	h := sha256.New()
+	n := 0
+	filepath.Walk(dir, func(path string, info os.FileInfo, err error) error {
+		if err != nil || info.IsDir() {
+			return nil
+		}
+		base := filepath.Base(path)
+		if base == "LOG" || base == "LOCK" || base == "LOG.old" {
+			return nil
+		}
+		rel, _ := filepath.Rel(dir, path)
+		fmt.Fprintf(h, "%s:%d;", rel, info.Size())
+		n++
+		return nil
+	})
+	return fmt.Sprintf("%d:%x", n, h.Sum(nil)[:4])
+}
